@@ -184,6 +184,9 @@ class Repo:
         from .normalize import normalize_module, compute_pure_names, compute_tuple_sizes
         compute_pure_names([m.tree for m in self.modules.values()])
         compute_tuple_sizes([m.tree for m in self.modules.values()])
+        from .normalize import compute_stable_attrs, compute_param_mutation
+        compute_stable_attrs([m.tree for m in self.modules.values()])
+        compute_param_mutation([m.tree for m in self.modules.values()])
         for mod in self.modules.values():
             mod.normalized = normalize_module(mod.tree, mod.name)
             set_parents(mod.tree)
